@@ -13,7 +13,7 @@ class C18:
     coq_timeout = 900
     model_targets = ["Pack.vo", "Corr/C18.vo"]
     proof_target = "Props/C18.vo"
-    theorems = ["C18_hash_roundtrip", "C18_hash_safe", "C18_url_shape", "C18_info_hash_found", "C18_existing_kept"]
+    theorems = ["C18_hash_roundtrip", "C18_hash_safe", "C18_url_shape", "C18_info_hash_found", "C18_existing_kept", "C18_hash_injective"]
     allowed_axioms = []
     coq_header = "From Rdest Require Import Base BCodec Consts Url Corr.C18.\nOpen Scope N_scope.\n"
     corr_name = "TrackerClient::create_url + the request reqwest sends vs Url.v"
